@@ -6,7 +6,8 @@ lossy-domain flag (re-validated by the runner against RelGrammar.lossy_dom).
 Abstract syntax (Python side):
   term  = (ws, neg, name)
   group = (ws0, [term], ws1)
-  ver   = (ws0, ws1, op, ws2, epoch|None, version, ws3)      op in ge le eq gt lt
+  ver   = (ws0, ws1, op, ws2, epoch|None, version, ws3, [piece])   op in ge le eq gt lt;
+          text = [epoch ":"] version (":" piece)*  (pieces only with an epoch)
   qual  = (ws0, ws1, name)
   rel   = dict(name, qual|None, ver|None, archs: group|None, profs: [group], trail)
   item  = ("E", rel, [(ws, rel)]) | ("S", seg, [seg], trail) | ("N",)
@@ -71,7 +72,8 @@ def gen_rel(rng, style, p):
         ep = rng.choice(EPOCHS) if rng.random() < p["epoch"] else None
         w3 = ws(rng, style) if rng.random() < p["w3"] else ""
         w0 = ws(rng, style) if style in ("tight", "wild") else (ws(rng, style) or " ")
-        r["ver"] = (w0, ws(rng, style), rng.choice(list(OPS)), ws(rng, style), ep, ident(rng, VERS), w3)
+        more = [ident(rng, VERS) for _ in range(rng.choice([1, 1, 2]))] if ep is not None and rng.random() < 0.15 else []
+        r["ver"] = (w0, ws(rng, style), rng.choice(list(OPS)), ws(rng, style), ep, ident(rng, VERS), w3, more)
     if rng.random() < p["archs"]:
         negmode = "all" if rng.random() < p["negarch"] else "none"
         if style == "wild" and rng.random() < 0.15:
@@ -120,7 +122,7 @@ def gen_clean_field(rng):
 # ---------------------------------------------------------------- rendering
 def term_text(t): return t[0] + ("!" if t[1] else "") + t[2]
 def group_text(o, c, g): return g[0] + o + "".join(term_text(t) for t in g[1]) + g[2] + c
-def vtext(v): return (v[4] + ":" if v[4] is not None else "") + v[5]
+def vtext(v): return (v[4] + ":" if v[4] is not None else "") + v[5] + "".join(":" + p for p in v[7])
 def ver_text(v): return v[0] + "(" + v[1] + OPS[v[2]] + v[3] + vtext(v) + v[6] + ")"
 def qual_text(q): return q[0] + ":" + q[1] + q[2]
 def rel_text(r):
@@ -143,7 +145,7 @@ def enc_rel(r):
     q, v = r["qual"], r["ver"]
     out += ["q1", h(q[0]), h(q[1]), h(q[2])] if q else ["q0"]
     if v:
-        out += ["v1", h(v[0]), h(v[1]), v[2], h(v[3])] + (["e1", h(v[4])] if v[4] is not None else ["e0"]) + [h(v[5]), h(v[6])]
+        out += ["v1", h(v[0]), h(v[1]), v[2], h(v[3])] + (["e1", h(v[4])] if v[4] is not None else ["e0"]) + [h(v[5]), str(len(v[7]))] + [h(x) for x in v[7]] + [h(v[6])]
     else:
         out += ["v0"]
     out += (["a1"] + enc_group(r["archs"])) if r["archs"] else ["a0"]
@@ -179,7 +181,8 @@ def decode(enc):
         if nxt() == "v1":
             w0, w1, op, w2 = s(), s(), nxt(), s()
             ep = s() if nxt() == "e1" else None
-            r["ver"] = (w0, w1, op, w2, ep, s(), s())
+            ver = s(); more = [s() for _ in range(int(nxt()))]
+            r["ver"] = (w0, w1, op, w2, ep, ver, s(), more)
         else:
             r["ver"] = None
         r["archs"] = group() if nxt() == "a1" else None
@@ -210,16 +213,16 @@ def rels_of(f):
                 yield r
 def items_of(f): return [f[1]] + [i for _, i in f[2]]
 
-def rel_record(r, neg_marks=True):
+def rel_record(r):
     v = r["ver"]
     vs = "-" if not v else v[2] + "." + hexs(vtext(v))
     a = r["archs"]
-    as_ = "-" if not a else "+" + ".".join(("!" if t[1] and neg_marks else "") + hexs(t[2]) for t in a[1])
+    as_ = "-" if not a else "+" + ".".join(hexs(("!" if t[1] else "") + t[2]) for t in a[1])
     ps = "".join("<" + ".".join(("d" if t[1] else "e") + hexs(t[2]) for t in g[1]) + ">" for g in r["profs"])
     q = "-" if not r["qual"] else "+" + hexs(r["qual"][2])
     return f"n:{hexs(r['name'])},q:{q},v:{vs},a:{as_},p:{ps}"
-def content_record(f, neg_marks=True):
-    return ";".join("/".join(rel_record(r, neg_marks) for r in [it[1]] + [r for _, r in it[2]]) for it in items_of(f) if it[0] == "E")
+def content_record(f):
+    return ";".join("/".join(rel_record(r) for r in [it[1]] + [r for _, r in it[2]]) for it in items_of(f) if it[0] == "E")
 def substvars_record(f):
     return ",".join(hexs(subst_text(it)) for it in items_of(f) if it[0] == "S")
 def has_subst(f): return any(it[0] == "S" for it in items_of(f))
@@ -236,16 +239,6 @@ def lossy_dom(f):
         if not all(gi(g) for g in r["profs"]): return False
     return True
 
-def lossy_classes(f):
-    """the known classes of lossy-reader failures this field falls in"""
-    out = []
-    rels = list(rels_of(f))
-    if any(r["archs"] and any(t[1] for t in r["archs"][1]) for r in rels): out.append("lossy-negated-arch")
-    if any(len(g[1]) > 1 for r in rels for g in r["profs"]): out.append("lossy-multi-term-profile")
-    if any(g[1][0][0] != "" or g[2] != "" for r in rels for g in r["profs"]): out.append("lossy-ws-in-profile")
-    if any(r["ver"] and r["ver"][6] != "" for r in rels): out.append("lossy-space-before-rparen")
-    return out
-
 def needs_fix(f):
     """uses what the lossless reader only accepts with the proposed fix: an epoch, or whitespace before ')'"""
     return any(r["ver"] and (r["ver"][4] is not None or r["ver"][6] != "") for r in rels_of(f))
@@ -257,7 +250,7 @@ def case_of(f, cid):
 def small_fields():
     """systematic small fields: every combination of optional parts x trailing space x position"""
     quals = [None, ("", "", "any"), (" ", "\n", "q")]
-    vers = [None, (" ", "", "ge", " ", None, "1.0", ""), ("", " ", "lt", "", "1", "2~b", "\n "), (" ", "", "eq", " ", "0", "1", "")]
+    vers = [None, (" ", "", "ge", " ", None, "1.0", "", []), ("", " ", "lt", "", "1", "2~b", "\n ", []), (" ", "", "eq", " ", "0", "09", "", ["09-s"])]
     archs = [None, (" ", [("", False, "amd64")], ""), (" ", [("", True, "i386"), (" ", True, "arm64")], " "), ("", [(" ", False, "x"), ("\n", False, "y")], "")]
     profs = [[], [(" ", [("", True, "nocheck")], "")], [(" ", [("", False, "a"), (" ", True, "b")], ""), ("", [(" ", False, "c")], " ")]]
     trails = ["", " ", "\n"]
@@ -293,7 +286,7 @@ def doc_cases(tier, rng, prefix):
 REGRESSION_TEXTS = [
     "a (>= 1:2.0)", "a (>= 1 )", "a [!amd64]", "a :any", "a : any (= 1)", "a <a b>", "a < x >", "a <! x>", "a [! amd64]",
     "a (> 1)", "a (< 1)", "a (1)", "a (>= 99999999999:1)", "a (>= 4294967295:1)", "a (>= 4294967296:1)", "a (>= 007:1)",
-    "a (>= 1:)", "a (>= :1)", "a (>= 1:2:3)", "a (>= 1 : 2)", "a (>= a:1)", "a (>= 1a:2)", "a (>= 1", "a (>= 1:2", "a (>= 1 ",
+    "a (>= 1:)", "a (>= :1)", "a (>= 1:2:3)", "a (= 0:09:09-s)", "a (= 5::)", "a (= :5)", "c (>> 7:1::2)", "a (= :)", "a (= ::: )", "a (= 1 :2)", "a (= 1:2:)", "a (= 1::2)", "a (= a:b:c )", "a (>= 1 : 2)", "a (>= a:1)", "a (>= 1a:2)", "a (>= 1", "a (>= 1:2", "a (>= 1 ",
     "a (>=\n1:2\n)", "a <", "a <!", "a <a", "a [", "a [!", "a | (", "${a} | b", "a | ${b}", "a, ${x:y} , b", "${", "${a:", "${a}b",
     "a:any:b", "a : : b", "a\n(>= 1)\n[a]\n<b>", "a (>= 1) (<< 2)", "a [b] [c]", "a <b> [c]", "a (= 1) :any",
 ]
